@@ -15,9 +15,13 @@ mkdir -p seeded/results
 for id in $IDS; do
   prop=$(jq -r .property seeded/$id/meta.json); [ -n "$PROP" ] && prop=$PROP
   # a change produced for one property but decided by the other check (see meta.json "also")
-  also=$(jq -r '.also // empty' seeded/$id/meta.json); [ -z "$PROP" ] && [ -n "$also" ] && prop=$also
+  also=$(jq -r '.also // empty' seeded/$id/meta.json)
   expect=$(jq -r '.expect // "violation"' seeded/$id/meta.json)
-  for seed in $SEEDS; do
+  props=$prop
+  # "also" on a property-breaking change: the other check is the one that decides it;
+  # on an equivalent change: both checks must stay silent
+  if [ -z "$PROP" ] && [ -n "$also" ]; then if [ "$expect" = silent ]; then props="$prop $also"; else props=$also; fi; fi
+  for prop in $props; do for seed in $SEEDS; do
     git -C /repo apply /verif/seeded/$id/patch.diff || { echo "$id: patch does not apply"; continue; }
     t0=$(date +%s)
     out=$(VERIF_SEED=$seed ./run $prop --tier $TIER $WALL $EXTRA 2>&1); code=$?
@@ -29,5 +33,5 @@ for id in $IDS; do
     echo "$out" > seeded/results/$id.$prop.seed$seed.log
     rp=$(echo "$out" | grep -m1 -o 'replay=[^ ]*' | cut -d= -f2)
     [ -n "$rp" ] && cp "$rp" seeded/results/$id.seed$seed.replay.json 2>/dev/null
-  done
+  done; done
 done
